@@ -126,7 +126,7 @@ def build(configs):
 
 
 # --------------------------------------------------------------------------- TLC
-def tlc(module, cfgfile, metadir, env_extra=None, workers=1, xmx="3g", extra=None, timeout=3600, deque=True):
+def tlc(module, cfgfile, metadir, env_extra=None, workers=1, xmx="2g", extra=None, timeout=3600, deque=True):
     env = dict(os.environ)
     jto = "-Xss1g"
     if deque:
@@ -404,7 +404,7 @@ def check(prop, tier, seed):
         return job, trace, vecs, viols, runs, stats, crashed
 
     results = []
-    with cf.ThreadPoolExecutor(max_workers=max(2, NCPU - 2)) as ex:
+    with cf.ThreadPoolExecutor(max_workers=max(2, min(10, NCPU - 2))) as ex:
         for r in ex.map(do, jobs):
             results.append(r)
 
